@@ -4,7 +4,7 @@ import json
 import os
 import vlib
 
-LEVEL = "model_checking"
+LEVEL = "exploration"
 CLAUSES = {1: "panicked / aborted / did not terminate", 2: "requested a buffer larger than 512*len+64KiB",
            3: "accepted input cannot be re-serialized without panicking", 4: "declares more than the buffer holds, yet accepted"}
 SAMPLES = [("ArchiveTest_Mixed2.bin", "bin_le"), ("ArchiveTest_OnlyText.bin", "bin_le"), ("AssetBinary_Test.bin", "bin_le"),
